@@ -374,11 +374,37 @@ def _fmt(x, nd=4):
     return round(x, nd)
 
 
+def step_deps(st):
+    deps = []
+    for v in st.get('kw', {}).values():
+        if isinstance(v, dict) and 'ref' in v:
+            deps.append(v['ref'])
+        elif isinstance(v, dict) and 'refs' in v:
+            deps.extend(v['refs'])
+    return deps
+
+
+def random_topological(rng, sec):
+    """A random order of sector declarations in which every object exists before it is passed to
+    another object's constructor."""
+    remaining = list(sec)
+    done, out = set(), []
+    ids = set(st['id'] for st in sec)
+    while remaining:
+        ready = [st for st in remaining if all((d in done) or (d not in ids) for d in step_deps(st))]
+        st = rng.choice(ready)
+        remaining.remove(st)
+        done.add(st['id'])
+        out.append(st)
+    return out
+
+
 class ProgGen(object):
     """Random well-formed programs.  Every random choice comes from self.rng."""
 
-    def __init__(self, rng, allow_rename=True, decimals=4):
+    def __init__(self, rng, allow_rename=True, decimals=4, shuffle=True):
         self.rng = rng
+        self.shuffle = shuffle
         self.allow_rename = allow_rename
         self.decimals = decimals
         self.n = 0
@@ -511,7 +537,8 @@ class ProgGen(object):
             ops.append({'kind': 'op', 'op': 'AddVariable', 'sector': govid, 'name': 'GIFT', 'eqn': str(_fmt(rng.uniform(0.5, 3), 2))})
             ops.append({'kind': 'op', 'op': 'RegisterCashFlow', 'src': govid, 'tgt': hh, 'var': 'GIFT',
                         'inc_src': rng.random() < 0.5, 'inc_tgt': rng.random() < 0.5})
-        rng.shuffle(sec) if False else None
+        if self.shuffle and rng.random() < 0.6:
+            sec = random_topological(rng, sec)
         steps.extend(sec)
         info['ops'] = ops
         info['markets'] = {'GOOD': goods, 'LAB': lab}
